@@ -634,13 +634,16 @@ func C09(rep *ev.Reporter, tier string) {
 		coarse         string
 		maxExec        int
 	}
-	scens := []scen{{"2 threads, 1-rule library, every yield point, <=2 preemptions", "lib1", 2, 2, "fine", 0}}
+	scens := []scen{{"2 threads, 1-rule library, every yield point, <=2 preemptions", "lib1", 2, 2, "fine", 0},
+		{"2 threads, 2-rule library (second rule retracts the first), coarse yield points, <=3 preemptions", "lib2", 2, 3, "coarse", 0},
+		{"2 threads, 2-rule library, every yield point, <=2 preemptions", "lib2", 2, 2, "fine", 0}}
 	if tier == "thorough" {
 		scens = append(scens,
-			scen{"2 threads, 2-rule library, every yield point, <=2 preemptions", "lib2", 2, 2, "fine", 0},
 			scen{"3 threads, 1-rule library, every yield point, <=2 preemptions", "lib1", 3, 2, "fine", 0},
-			scen{"2 threads, 2-rule library, coarse yield points, <=3 preemptions", "lib2", 2, 3, "coarse", 0},
-			scen{"3 threads, 2-rule library, coarse yield points, <=2 preemptions", "lib2", 3, 2, "coarse", 0})
+			scen{"3 threads, 2-rule library, coarse yield points, <=2 preemptions", "lib2", 3, 2, "coarse", 0},
+			scen{"2 threads, 2-rule library, coarse yield points, <=4 preemptions", "lib2", 2, 4, "coarse", 0},
+			scen{"3 threads, 2-rule library, coarse yield points, <=3 preemptions", "lib2", 3, 3, "coarse", 0},
+			scen{"3 threads, 2-rule library, every yield point, <=2 preemptions", "lib2", 3, 2, "fine", 0})
 	}
 	self := selfExe
 	totalExec, totalOutcomes := 0, 0
